@@ -169,7 +169,7 @@ Section PY.
     destruct (match search PShortAnte _ with Some _ => _ | None => Ok tt end) as [u|ex];
       cbn [bind]; [|discriminate].
     destruct (glookup g_page (t_groups t)) as [prefix|]; [|discriminate].
-    destruct (epin words i (ze t) prefix) as [[[pin se] par]|ex]; cbn [bind]; [|discriminate].
+    destruct (epin words i (ze t) _) as [[[pin se] par]|ex]; cbn [bind]; [|discriminate].
     intros [= <-]. split; [|apply wguess_ginv]. left. reflexivity.
   Qed.
 
@@ -367,9 +367,13 @@ Section PY.
       t_kind t = KCitation -> t_short t = true -> tok_ok source_of t -> exists c, eshort words i t = Ok c.
     Proof.
       intros Hk Hs Ht. unfold tok_ok in Ht. rewrite Hk in Ht. destruct Ht as (Ht & _).
-      destruct (Ht Hs) as (pg & Hpg & _).
+      destruct (Ht Hs) as (pg & Hpg).
       unfold extract_short. cbv zeta. rewrite Hpg.
-      destruct (epin_total words i (ze t) pg) as ([[pin se] par] & Hr). rewrite Hr.
+      destruct (epin_total words i (ze t) (if suffixb pg (t_data t) then pg else []))
+        as ([[pin se] par] & Hr).
+      replace (if suffixb pg (t_data t) then Some pg else Some [])
+        with (Some (if suffixb pg (t_data t) then pg else [])) by (destruct (suffixb pg (t_data t)); reflexivity).
+      rewrite Hr.
       destruct (search PShortAnte _) as [m|] eqn:Em.
       - destruct (Hsearch _ _ _ Em) as (_ & _ & _ & _ & _ & Ha).
         destruct (Ha eq_refl) as (a & b & Hab).
